@@ -538,3 +538,55 @@ Proof.
   - apply IH; try assumption; try congruence.
   - intros H. inversion H. subst. apply Hj. reflexivity.
 Qed.
+
+(* ------------------------------------------------------------------ the policy table (radius.PolicyManager) *)
+Definition after_ops (s : state) (ops : list op) : state := fold_left (fun st o => fst (fst (step st o))) ops s.
+
+Lemma p_get_put t : forall n v, p_get (p_put t n v) n = Some v.
+Proof.
+  assert (Hr : forall k, bytes_eqb k k = true) by (intros k; apply bytes_eqb_eq; reflexivity).
+  induction t as [|[n' v'] t IH]; intros n v; cbn; [rewrite Hr; reflexivity|].
+  destruct (bytes_eqb n n') eqn:E; cbn; [rewrite Hr; reflexivity|].
+  destruct (lex_leb n n'); cbn; [rewrite Hr; reflexivity|]. rewrite E. apply IH.
+Qed.
+
+Lemma pols_apply s ip n : pols (fst (fst (step s (ApplyPol ip n)))) = pols s.
+Proof.
+  cbn [step]. destruct (p_get (pols s) n) as [[[[d u] b] p]|]; [|reflexivity].
+  destruct (is_v4 ip); [|reflexivity]. unfold set_qos. reflexivity.
+Qed.
+
+Lemma apply_is_set s ip n d u b p : p_get (pols s) n = Some (d, u, b, p) ->
+  step s (ApplyPol ip n) = step s (SetQoS true ip d u b p).
+Proof. intros H. cbn [step]. rewrite H. reflexivity. Qed.
+
+(* a plan that is re-defined and re-applied is the plan in force: whatever was defined and applied before
+   under that name (lower or higher rate, rate 0, another burst or priority), GetPolicy returns the new
+   definition and SetSubscriberPolicy writes exactly what SetSubscriberQoS would write for the new values *)
+Theorem policy_redefinition_applied : forall s n ip d1 u1 b1 p1 d2 u2 b2 p2, n <> [] ->
+  let s2 := after_ops s [PolAdd n d1 u1 b1 p1; ApplyPol ip n; PolAdd n d2 u2 b2 p2] in
+  step s2 (PolGet n) = (s2, OPol (Some (d2, u2, b2, p2)), []) /\
+  step s2 (ApplyPol ip n) = step s2 (SetQoS true ip d2 u2 b2 p2).
+Proof.
+  intros s n ip d1 u1 b1 p1 d2 u2 b2 p2 Hn. cbv zeta.
+  assert (Hg : p_get (pols (after_ops s [PolAdd n d1 u1 b1 p1; ApplyPol ip n; PolAdd n d2 u2 b2 p2])) n = Some (d2, u2, b2, p2)).
+  { unfold after_ops. cbn [fold_left].
+    set (s1 := fst (fst (step s (PolAdd n d1 u1 b1 p1)))).
+    set (s1' := fst (fst (step s1 (ApplyPol ip n)))).
+    destruct n as [|x n]; [contradiction|]. cbn [step fst pols]. apply p_get_put. }
+  split; [cbn [step]; rewrite Hg; reflexivity|apply apply_is_set; exact Hg].
+Qed.
+
+(* through a named plan the guarded enforcement theorem holds as for SetSubscriberQoS *)
+Theorem policy_via_plan_enforced_partial : forall s n ip down up pr,
+  n <> [] -> palindromic ip -> down < 34359738368 -> up < 34359738368 -> pr < 256 ->
+  let s' := after_ops s [PolAdd n down up 0 pr; ApplyPol ip n] in
+  enforced s' Egress ip down (contract_burst down 0) /\ enforced s' Ingress ip up (contract_burst up 0).
+Proof.
+  intros s n ip down up pr Hn Hpal Hd Hu Hp. cbv zeta. unfold after_ops. cbn [fold_left].
+  set (s1 := fst (fst (step s (PolAdd n down up 0 pr)))).
+  assert (Hg : p_get (pols s1) n = Some (down, up, 0, pr)).
+  { unfold s1. destruct n as [|x n]; [contradiction|]. cbn [step fst pols]. apply p_get_put. }
+  rewrite (apply_is_set s1 ip n _ _ _ _ Hg).
+  exact (policy_enforced_partial s1 true ip down up pr Hpal Hd Hu Hp).
+Qed.
